@@ -167,6 +167,22 @@ def run(chk):
             except Exception as e:  # noqa
                 chk.violation(f"C06|oracle|raises-{core.err_name(e)}", f"real pc_n/varpc_n raised {e!r} in exact arithmetic for N={N}",
                               {"N": N, "p": [str(x) for x in p]})
+    # categories that are table ROWS whose column texts collide when concatenated: E[pc(table)] = sum p^2
+    import pandas as pd
+    cats = [("CAS", "SF"), ("CASS", "F"), ("CA", "SSF")]
+    pr = [Fraction(1, 2), Fraction(1, 3), Fraction(1, 6)]
+    for N in (2, 3):
+        tot = Fraction(0)
+        for xs in itertools.product(range(3), repeat=N):
+            w = Fraction(1)
+            for i in xs:
+                w *= pr[i]
+            df = pd.DataFrame([cats[i] for i in xs], columns=["CDR3A", "CDR3B"])
+            tot += w * Fraction(float(st.pc(df))).limit_denominator(10 ** 6)
+        chk.case(nontrivial_key=("E-rows", N))
+        if tot != sum(x ** 2 for x in pr):
+            chk.violation("C06|pc-table|biased", f"E[pc(table)] = {tot} != sum p^2 = {sum(x ** 2 for x in pr)} for row-valued categories, N={N}",
+                          {"N": N, "categories": cats})
     # two-sample: E[pc(x, y)] = sum p q, exact enumeration over small samples
     for (K, p), (_, q) in [(grids[0], grids[1]), (grids[2], grids[3])]:
         for N1, N2 in [(1, 1), (2, 3), (3, 2)]:
